@@ -151,6 +151,127 @@ def rule_hash_before_after(ctx):
                 ctx.check(not later, fq, "a failed input re-hash ends the job without touching the step", "job continues after a failed input re-hash", "early return")
 
 
+def _mentions(node, pred):
+    return any(pred(n) for n in ast.walk(node))
+
+
+def _is_run_attr(n, attr):
+    return isinstance(n, ast.Attribute) and n.attr == attr and isinstance(n.value, ast.Name) and n.value.id == "run"
+
+
+def rule_after_baseline(ctx):
+    """R-C03-9: the hashes an input is compared with after the command are the ones verified when the run started."""
+    nr = ctx.prog.func("executor.Executor._new_run")
+    params = {a.arg for a in nr.node.args.args}
+    ctx.check("inp_hashes" in params, nr.fq, "receives the dispatch-time input hashes", "parameter inp_hashes is gone", "parameter present")
+    # (a) _new_run stores the verified hashes on the run, on the path that returns a hash
+    attrs = []
+    for n in ast.walk(nr.node):
+        if isinstance(n, (ast.Assign, ast.AnnAssign)):
+            tgts = n.targets if isinstance(n, ast.Assign) else [n.target]
+            for t in tgts:
+                if isinstance(t, ast.Attribute) and isinstance(t.value, ast.Name) and t.value.id == "run" and n.value is not None and _mentions(n.value, lambda m: isinstance(m, ast.Name) and m.id == "inp_hashes"):
+                    attrs.append((t.attr, n))
+    ctx.check(len(attrs) == 1, nr.fq, "the hashes verified before the command are kept on the run", f"found {len(attrs)} assignments of the verified input hashes to the run; the comparison after the command then falls back to whatever the database says by then", "one assignment")
+    attr, asg = attrs[0] if len(attrs) == 1 else ("<none>", None)
+    ok_path, paths_seen = True, 0
+    for tr, st in finite.feasible_paths(ctx.prog, nr, {}, {"new_step_hash is not None": True}):
+        tests = [(e[1], e[2]) for e in tr if e[0] == "test"]
+        if ("new_step_hash is not None", True) in tests:
+            paths_seen += 1
+            if not any(e[0] == "assign" and e[1] == f"run.{attr}" for e in tr):
+                ok_path = False
+    guard = None
+    for n in ast.walk(nr.node):
+        if asg is not None and isinstance(n, ast.If) and any(asg is m for b in n.body for m in ast.walk(b)):
+            guard = _norm(ast.unparse(n.test))
+    ctx.check(asg is not None and ok_path and paths_seen > 0 and guard in (None, "new_step_hash is not None"), nr.fq, "stored on every path that lets the command start", f"the assignment to run.{attr} is guarded by {guard!r}", "stored when the input re-hash succeeded")
+    # (b) _compute_full_step_hash: the 'before' mapping handed to compute_both_hashes prefers run.<attr>
+    cf = ctx.prog.func("executor.Executor._compute_full_step_hash")
+    first = None
+    for c in calls_in(cf.node):
+        nm = callee_name(c)
+        if nm and nm.split(".")[-1] == "compute_both_hashes" and c.args:
+            first = c.args[0]
+        if nm and nm.split(".")[-1] == "partial" and c.args and isinstance(c.args[0], ast.Name) and c.args[0].id == "compute_both_hashes" and len(c.args) > 1:
+            first = c.args[1]
+    ctx.check(isinstance(first, ast.Name), cf.fq, "compute_both_hashes receives the 'before' input hashes by name", "call shape not recognised", "recognised")
+    if not isinstance(first, ast.Name):
+        raise AnalysisError(f"{cf.fq}: compute_both_hashes call not found")
+    var = first.id
+    run_attr = lambda m: _is_run_attr(m, attr)  # noqa: E731
+    stores = []  # (kind, value node, prefers_run)
+
+    def visit(stmts, guards):
+        for stx in stmts:
+            if isinstance(stx, ast.If):
+                visit(stx.body, guards + [(stx.test, True)])
+                visit(stx.orelse, guards + [(stx.test, False)])
+                continue
+            if isinstance(stx, (ast.For, ast.AsyncFor, ast.While, ast.With, ast.AsyncWith, ast.Try)):
+                for fld in ("body", "orelse", "finalbody"):
+                    visit(getattr(stx, fld, []) or [], guards)
+                for h in getattr(stx, "handlers", []) or []:
+                    visit(h.body, guards)
+                continue
+            if isinstance(stx, ast.Assign):
+                for t in stx.targets:
+                    if isinstance(t, ast.Name) and t.id == var:
+                        stores.append(("bind", stx.value, guards))
+                    if isinstance(t, ast.Subscript) and isinstance(t.value, ast.Name) and t.value.id == var:
+                        stores.append(("item", stx.value, guards))
+            if isinstance(stx, ast.Expr) and isinstance(stx.value, ast.Call) and isinstance(stx.value.func, ast.Attribute) and isinstance(stx.value.func.value, ast.Name) and stx.value.func.value.id == var and stx.value.func.attr == "update":
+                stores.append(("update", stx.value, guards))
+
+    visit(cf.node.body, [])
+    ctx.check(bool(stores), cf.fq, f"writes to {var} found", "no write found", f"{len(stores)} writes")
+
+    def membership_guard(guards):
+        """+1 if the guards say 'path in run.attr', -1 if they say 'not in', 0 otherwise."""
+        for test, pol in guards:
+            if isinstance(test, ast.Compare) and len(test.ops) == 1 and _mentions(test.comparators[0], run_attr):
+                if isinstance(test.ops[0], ast.In):
+                    return 1 if pol else -1
+                if isinstance(test.ops[0], ast.NotIn):
+                    return -1 if pol else 1
+        return 0
+
+    def value_prefers_run(v):
+        # run.attr[k], run.attr.get(k, fallback), IfExp(k in run.attr, run.attr[k], fallback), or inside a comprehension
+        for m in ast.walk(v):
+            if isinstance(m, ast.Call) and isinstance(m.func, ast.Attribute) and m.func.attr == "get" and run_attr(m.func.value):
+                return True
+            if isinstance(m, ast.IfExp) and isinstance(m.test, ast.Compare) and _mentions(m.test, run_attr):
+                op = m.test.ops[0]
+                arm = m.body if isinstance(op, ast.In) else m.orelse
+                if _mentions(arm, run_attr):
+                    return True
+        return False
+
+    db_stores = []
+    run_stores = []
+    for k, (kind, v, guards) in enumerate(stores):
+        uses_run = _mentions(v, run_attr)
+        mg = membership_guard(guards)
+        if kind == "item" and uses_run and mg >= 0:
+            run_stores.append(k)
+        elif kind in ("bind", "update") and uses_run and (value_prefers_run(v) or kind == "update"):
+            run_stores.append(k)
+        elif kind == "bind" and isinstance(v, (ast.Dict, ast.Call)) and not _mentions(v, lambda m: isinstance(m, ast.Attribute) and m.attr == "hash") and not isinstance(v, ast.DictComp):
+            continue  # empty initialisation
+        else:
+            db_stores.append((k, mg, uses_run))
+    ctx.check(bool(run_stores), cf.fq, f"{var} takes values from run.{attr}", f"the 'before' hashes never come from run.{attr}: an input whose record another step updated while this command ran is compared with the updated hash and the step succeeds on content it did not read", "run-start hashes used")
+    for k, mg, uses_run in db_stores:
+        later_override = any(j > k and stores[j][0] in ("update", "item") and j in run_stores and membership_guard(stores[j][2]) >= 0 and not stores[j][2] for j in range(len(stores)))
+        ctx.check(mg == -1 or later_override, cf.fq, "a hash read from the database is used only for inputs that were not verified at run start", f"write #{k} to {var} takes the database record also for inputs listed in run.{attr}", "database hash is the fallback only", where=ctx.where_of(cf, stores[k][1]))
+    # (c) the Run field starts empty, so a run that never passed _new_run falls back to the database
+    rn = ctx.prog.cls("run.Run") if hasattr(ctx.prog, "cls") else None
+    if rn is not None and asg is not None:
+        fields = [n for n in rn.node.body if isinstance(n, ast.AnnAssign) and isinstance(n.target, ast.Name) and n.target.id == attr]
+        ctx.check(len(fields) == 1, "run.Run", f"field {attr} declared", "field missing", "declared")
+
+
 def rule_atomic_completion(ctx):
     """R-C03-4."""
     fi = ctx.prog.func("executor.Executor.execute_job")
@@ -356,6 +477,7 @@ RULES = [
     Rule("R-C03-5", "amend classifies every input", rule_amend_classification, min_instances=12),
     Rule("R-C03-6", "defer keeps the step wakeable", rule_defer_keeps_wakeable, min_instances=4),
     Rule("R-C03-7", "freshness test orientation and clock bookkeeping", rule_freshness, min_instances=7),
+    Rule("R-C03-9", "the comparison after the command uses the hashes verified at run start", rule_after_baseline, min_instances=5),
     Rule("R-C03-8", "amend-time, defer-time and report-time predicates agree", rule_three_predicates, min_instances=20),
 ]
 
@@ -367,6 +489,10 @@ MUTANTS = [
     Mutant("run-after-failed-rehash", "executor.py", in_function("Executor.execute_job", replace_once("        if new_hash is None:\n            # Step failed early due to unexpected input changes, error already reported.\n            return\n", "")), ("R-C03-3",)),
     Mutant("no-drain-on-change", "executor.py", in_function("Executor.execute_job", replace_once("            await self._drain_for_unexpected_input_changes()\n", "            pass\n")), ("R-C03-3",)),
     Mutant("classify-keeps-hash-on-change", "executor.py", in_function("Executor._classify_execution", replace_once("            run.success = False\n            new_hash = None\n            # Clear the dynamic inputs", "            run.success = False\n            # Clear the dynamic inputs")), ("R-C03-3",)),
+    Mutant("after-baseline-from-db", "executor.py", in_function("Executor._compute_full_step_hash", replace_once('            inp_hashes = {}\n            for rec in run.step.inp_paths():\n                if rec.path in run.start_inp_hashes:\n                    inp_hashes[rec.path] = run.start_inp_hashes[rec.path]\n                elif rec.state in (FileState.BUILT, FileState.CONFIRMED):\n                    inp_hashes[rec.path] = rec.hash\n', "            inp_hashes = {rec.path: rec.hash for rec in run.step.inp_paths() if rec.state in (FileState.BUILT, FileState.CONFIRMED)}\n")), ("R-C03-9",)),
+    Mutant("after-baseline-db-first", "executor.py", in_function("Executor._compute_full_step_hash", replace_once('            inp_hashes = {}\n            for rec in run.step.inp_paths():\n                if rec.path in run.start_inp_hashes:\n                    inp_hashes[rec.path] = run.start_inp_hashes[rec.path]\n                elif rec.state in (FileState.BUILT, FileState.CONFIRMED):\n                    inp_hashes[rec.path] = rec.hash\n', "            inp_hashes = {}\n            for rec in run.step.inp_paths():\n                if rec.state in (FileState.BUILT, FileState.CONFIRMED):\n                    inp_hashes[rec.path] = rec.hash\n                elif rec.path in run.start_inp_hashes:\n                    inp_hashes[rec.path] = run.start_inp_hashes[rec.path]\n")), ("R-C03-9",)),
+    Mutant("run-start-hashes-not-kept", "executor.py", in_function("Executor._new_run", replace_once("            run.start_inp_hashes = dict(inp_hashes)\n", "")), ("R-C03-9",)),
+    Mutant("run-start-hashes-on-failure-only", "executor.py", in_function("Executor._new_run", lambda s: s.replace("            run.start_inp_hashes = dict(inp_hashes)\n", "", 1).replace("        unexpected_input_changes = len(new_inp_hashes) > 0\n", "        run.start_inp_hashes = dict(inp_hashes)\n        unexpected_input_changes = len(new_inp_hashes) > 0\n", 1) if "run.start_inp_hashes = dict(inp_hashes)" in s else None), ("R-C03-9",)),
     Mutant("await-in-completion", "executor.py", in_function("Executor.execute_job", replace_once("            run.interrupted_defer = step.mark_completed(new_hash, wants_defer)\n", "            run.interrupted_defer = step.mark_completed(new_hash, wants_defer)\n            await asyncio.sleep(0)\n")), ("R-C03-4",)),
     Mutant("stop-clock-after-region", "executor.py", in_function("Executor.execute_job", lambda s: s.replace("            self.scheduler.record_run_stopped(step.i, succeeded=new_hash is not None)\n", "", 1).replace("        self._report_step_counts()\n\n        # Report the result of running the step\n", "        self.scheduler.record_run_stopped(step.i, succeeded=new_hash is not None)\n        self._report_step_counts()\n\n        # Report the result of running the step\n", 1) if "# Report the result of running the step" in s else None), ("R-C03-4",)),
     Mutant("unconfirmed-accepted", "workflow.py", in_function("Workflow.amend_step", replace_once("            elif availability == Availability.UNCONFIRMED:\n                unconfirmed.add(info.file)\n", "            elif availability == Availability.UNCONFIRMED:\n                pass\n")), ("R-C03-5",)),
@@ -383,5 +509,7 @@ MUTANTS = [
 
 VARIANTS = [
     Variant("predicate-rewritten", "step.py", replace_once("        input_file.state NOT IN ({FileState.BUILT.value}, {FileState.CONFIRMED.value})\n    )\n)", "        (input_file.state != {FileState.BUILT.value} AND input_file.state != {FileState.CONFIRMED.value})\n    )\n)")),
+    Variant("after-baseline-get-form", "executor.py", in_function("Executor._compute_full_step_hash", replace_once('            inp_hashes = {}\n            for rec in run.step.inp_paths():\n                if rec.path in run.start_inp_hashes:\n                    inp_hashes[rec.path] = run.start_inp_hashes[rec.path]\n                elif rec.state in (FileState.BUILT, FileState.CONFIRMED):\n                    inp_hashes[rec.path] = rec.hash\n', "            inp_hashes = {}\n            for rec in run.step.inp_paths():\n                if rec.path in run.start_inp_hashes or rec.state in (FileState.BUILT, FileState.CONFIRMED):\n                    inp_hashes[rec.path] = run.start_inp_hashes.get(rec.path, rec.hash)\n"))),
+    Variant("after-baseline-update-form", "executor.py", in_function("Executor._compute_full_step_hash", replace_once('            inp_hashes = {}\n            for rec in run.step.inp_paths():\n                if rec.path in run.start_inp_hashes:\n                    inp_hashes[rec.path] = run.start_inp_hashes[rec.path]\n                elif rec.state in (FileState.BUILT, FileState.CONFIRMED):\n                    inp_hashes[rec.path] = rec.hash\n', "            inp_hashes = {rec.path: rec.hash for rec in run.step.inp_paths() if rec.state in (FileState.BUILT, FileState.CONFIRMED)}\n            current = {rec.path for rec in run.step.inp_paths()}\n            inp_hashes.update({p: h for p, h in run.start_inp_hashes.items() if p in current})\n"))),
     Variant("availability-rewritten", "workflow.py", in_function("_SupplyInfo.availability", replace_once("        if self.state in (FileState.BUILT, FileState.CONFIRMED):", "        if self.state in (FileState.CONFIRMED, FileState.BUILT):"))),
 ]
